@@ -293,3 +293,80 @@ func propC13(col *Collector, known bool) func(rt *rapid.T) {
 		_ = mp
 	}
 }
+
+// TestC13WriteFault: a write of the stream fails once in the middle of the sequence (a write deadline, flow
+// control), having taken only part of the bytes; afterwards the stream accepts writes again. The frame that was
+// being written is cut short on the wire, so nothing that is written behind it can be read as a message: every
+// message the writer ACCEPTED (its write call returned nil) must still be read by the peer intact and in order.
+func TestC13WriteFault(t *testing.T) {
+	col := NewCollector("TestC13WriteFault",
+		"rapid: 2-7 messages (kind, boundary-biased length, write path, chunking) through a writer Conn (drawn buffer size, role); one Write of the underlying stream, at a drawn byte offset of the whole sequence, takes only the bytes up to that offset and fails (transient: later stream writes succeed again); the writer carries on with the remaining messages on every path, ignoring errors; oracle: the messages whose write call returned nil are exactly what the peer reads, intact and in order, before its first error. non-trivial: the fault fell inside a frame and at least one message was attempted after it").Use(t)
+	rapid.Check(t, func(rt *rapid.T) {
+		W := rapid.SampledFrom([]int{0, 16, 64, 128, 1024, 4096}).Draw(rt, "W")
+		eW := effW(W)
+		isServer := rapid.Bool().Draw(rt, "writerIsServer")
+		n := rapid.IntRange(2, 7).Draw(rt, "n")
+		msgs := make([]wtMsgSpec, n)
+		total := 0
+		for i := range msgs {
+			msgs[i] = genWTMsg(rt, eW, i, false, col)
+			if msgs[i].Len > 70000 {
+				msgs[i].Len = 70000
+			}
+			total += msgs[i].Len + 9
+		}
+		at := rapid.IntRange(0, total).Draw(rt, "faultAt")
+		journal("C13 fault W=%d server=%v msgs=%v faultAt=%d", W, isServer, msgs, at)
+		pipe := newHalfPipe()
+		pipe.failWriteAt, pipe.failWriteE, pipe.failWriteTransient = int64(at), errInjected, true
+		wc := webtrans.NewConn(nil, &memWTStream{out: pipe, in: newHalfPipe()}, isServer, 0, W, nil, nil, nil)
+		rc := webtrans.NewConn(nil, &memWTStream{in: pipe, out: newHalfPipe()}, !isServer, 0, 0, nil, nil, nil)
+		type wm struct {
+			bin  bool
+			data []byte
+		}
+		var accepted []wm
+		failedAt, after := -1, 0
+		for i, m := range msgs {
+			pl := makePayload(m.Len, m.Seed)
+			err := wtWrite(wc, m.Path, m.Bin, pl, m.Chunks, m.EOFData)
+			if err == nil {
+				accepted = append(accepted, wm{m.Bin, pl})
+				if failedAt >= 0 {
+					after++
+				}
+			} else if failedAt < 0 {
+				failedAt = i
+			}
+		}
+		pipe.CloseWrite()
+		var got []wm
+		for i := 0; i < len(msgs)+2; i++ {
+			mt, data, err := rc.ReadMessage()
+			if err != nil {
+				break
+			}
+			got = append(got, wm{mt == webtrans.BinaryMessage, data})
+		}
+		classes := []string{fmt.Sprintf("role.server=%v", isServer)}
+		if failedAt >= 0 {
+			classes = append(classes, "a-write-failed")
+			if failedAt < len(msgs)-1 {
+				classes = append(classes, "messages-attempted-after-the-failure", "after.path."+wtPathNames[msgs[failedAt+1].Path])
+			}
+		} else {
+			classes = append(classes, "fault-beyond-the-sequence")
+		}
+		col.Case(fmt.Sprintf("%d|%v|%v|%d", W, isServer, msgs, at), failedAt >= 0 && failedAt < len(msgs)-1,
+			map[string]any{"W": W, "writerIsServer": isServer, "msgs": fmt.Sprint(msgs), "faultAt": at, "firstFailedWrite": failedAt, "acceptedAfterTheFailure": after}, classes...)
+		if len(got) != len(accepted) {
+			rt.Fatalf("stream write fault at byte %d (message %d failed): %d writes returned nil (%d of them after the failure), the peer read %d messages before its first error; msgs %v", at, failedAt, len(accepted), after, len(got), msgs)
+		}
+		for i := range accepted {
+			if got[i].bin != accepted[i].bin || !bytes.Equal(got[i].data, accepted[i].data) {
+				rt.Fatalf("stream write fault at byte %d: accepted message %d read back as bin=%v len=%d (equal=%v); msgs %v", at, i, got[i].bin, len(got[i].data), bytes.Equal(got[i].data, accepted[i].data), msgs)
+			}
+		}
+	})
+	col.RequireClasses(t, "a-write-failed", "messages-attempted-after-the-failure", "after.path.WritePreparedMessage", "after.path.WriteMessage", "after.path.NextWriter+Write")
+}
